@@ -125,6 +125,30 @@ Lemma between_skip l : forall lo a b c, ssorted lo l -> a <= b <= c -> between a
   between a c l = between b c l.
 Proof. intros lo a b c H Habc E. rewrite (between_split l lo a b c H Habc), E. reflexivity. Qed.
 
+(* a slice of a sorted list is a contiguous block of it *)
+Lemma filter_lt_nil l : forall lo a, ssorted lo l -> a <= lo -> filter (fun r => r <? a) l = [].
+Proof.
+  induction l as [|y l IH]; simpl; intros lo a H Hle; [reflexivity|].
+  destruct H as (H1 & H2). replace (y <? a) with false by lia. apply IH with (y + 1); [exact H2|lia].
+Qed.
+
+Lemma between_block l : forall lo a e, ssorted lo l -> a <= e ->
+  l = filter (fun r => r <? a) l ++ between a e l ++ filter (fun r => e <=? r) l.
+Proof.
+  induction l as [|y l IH]; simpl; intros lo a e H Hae; [reflexivity|].
+  destruct H as (H1 & H2). specialize (IH _ a e H2 Hae).
+  destruct (y <? a) eqn:E1.
+  - replace ((a <=? y) && (y <? e)) with false by lia. replace (e <=? y) with false by lia.
+    simpl. f_equal. exact IH.
+  - rewrite (filter_lt_nil l (y + 1) a H2 ltac:(lia)) in *. simpl in *.
+    destruct ((a <=? y) && (y <? e)) eqn:E2.
+    + replace (e <=? y) with false by lia. simpl. f_equal. exact IH.
+    + replace (e <=? y) with true by lia.
+      assert (between a e l = []) as B0.
+      { apply between_none. intros x I. pose proof (ssorted_ge _ _ _ H2 I). lia. }
+      rewrite B0 in *. simpl in *. f_equal. exact IH.
+Qed.
+
 Lemma zlist_eqb_eq a : forall b, zlist_eqb a b = true <-> a = b.
 Proof.
   induction a as [|x a IH]; destruct b as [|y b]; simpl; split; intros H; try reflexivity; try discriminate.
